@@ -130,9 +130,17 @@ Section WithDigest.
     - cbn [snd]. apply add_inv; auto. now apply inv_oids_exist.
   Qed.
 
+  Lemma check_nohash_world w o : snd (check_nohash w o) = w.
+  Proof.
+    unfold check_nohash. destruct (lookup o (w_objs w)) as [ob|]; auto.
+    destruct (w_cls w); auto. unfold Local_check.
+    destruct (N.eqb (S_IMODE (o_mode ob)) CACHE_MODE); auto.
+  Qed.
+
   Lemma step_inv w p : Inv w -> tick_ok w p -> Inv (fst (step H w p)).
   Proof.
-    intros I Tk. destruct p as [v items|v items|o'|os|o'|d ents|o' b m t|o'|o'|o' alg v| |os|v items]; [simpl in * .. | idtac].
+    intros I Tk. destruct p as [v items|v items|o'|os|o'|d ents|o' b m t|o'|o'|o' alg v| |os|v items|o'];
+      [simpl in * .. | idtac | idtac].
     - now apply add_inv.
     - unfold add_ro. destruct (match v with Some b => b | None => w_verify w end); auto.
       now apply inv_pre_fold.
@@ -184,6 +192,8 @@ Section WithDigest.
       + intros o. now apply (trusted_same_objs w).
     - now apply inv_check_seq.
     - now apply xfer_inv.
+    - change (fst (step H w (OCheckNoHash o'))) with (snd (check_nohash w o')).
+      now rewrite check_nohash_world.
   Qed.
 
   Theorem history_inv w h : Inv w -> ticks w h -> Inv (exec H w h).
